@@ -337,6 +337,9 @@ GEN_FAMILIES = {
     "G2p_3s": ("MC_Gen_G2p_3s.cfg", 700, 0),
     "G2p_3": ("MC_Gen_G2p_3.cfg", 0, 8000),
     "G2s": ("MC_Gen_G2s.cfg", 1200, None),
+    "G7": ("MC_Gen_G7.cfg", None, None),
+    "G8": ("MC_Gen_G8.cfg", None, None),
+    "G8b": ("MC_Gen_G8b.cfg", None, None),
 }
 
 
@@ -432,7 +435,7 @@ def gen_pipeline(tier, seed):
                          "known": [list(k) for k in a["known"]] + [list(k) for k in b["known"]],
                          "drift": a["drift"] or b["drift"], "gen": a["gen"], "dedup": b["dedup"], "gen2": b["gen2"],
                          "renamed": b["renamed"], "family": a["family"], "outs": a["outs"], "tog": r["tog"], "c05": a["c05"],
-                         "ncomp": a["ncomp"], "nruns": len(r["runs"])})
+                         "ncomp": a["ncomp"], "nruns": len(r["runs"]), "nsubs": a["nsubs"], "ncalls": a["ncalls"], "cas": a["cas"]})
     # per-action counts: the visit events of the real code that were stepped through the Visit action (-coverage is
     # unusable on this specification: TLC's cost accounting on the recursive operators exhausts the heap)
     for v in verdicts:
@@ -556,10 +559,94 @@ def check_c18(tier, seed):
                          tier, seed)
 
 
+def check_c07(tier, seed):
+    return check_genprop("C07", ["C07."], lambda v: v["nsubs"] > 0 and v["gen"] == "ok" and "substituted" in v["outs"],
+                         GEN_RULE + "family G7 puts a substitutable generic (and the prelude BTreeMap) in every position (field, Vec/Option/tuple/array, argument of another generic, "
+                         "nested in itself, variants, under a parent parameter, boxed, as resolve_type_path root) x 14 rule sets (pass-through, declared generics in order / swapped / nested / "
+                         "repeated / missing / extra fixed argument / fewer or more source parameters / fixed arguments, two rules, a replaced rule); TLC checks on the projected real output that the "
+                         "source path has no item and no reference anywhere and matches every occurrence against the rule's target pattern (SubstMatch inside Faithful); "
+                         "non-trivial = settings with rules, generation succeeded and a substituted entry was visited",
+                         tier, seed, domain=lambda v: v["nsubs"] > 0)
+
+
+def check_c08(tier, seed):
+    return check_genprop("C08", ["C08."], lambda v: v["gen"] == "ok" and (v["ncalls"] > 0 or v["cas"]),
+                         GEN_RULE + "family G8: a type graph with every structural edge kind (field, variant field, tuple, array, sequence, map, compact wrapper, generic argument, "
+                         "phantom parameter, cycles through Option<Box>), an unreachable type and three root sets x every 1- and 2-call selection of a pool of 11 global / per-type / "
+                         "recursive derive and attribute registrations (+ all at once); family G8b: single-field wrappers over every primitive (named, unnamed, boxed, compact, Cow, "
+                         "two fields, enum, generic, phantom) with CompactAs configured or not; predicate: Must <= derives <= May per emitted item, Must = closure over the generated "
+                         "module from the root item, May = registry reachability from any id of the root path; non-trivial = some registration or CompactAs configured and generation succeeded",
+                         tier, seed)
+
+
 def check_c04(tier, seed):
     return check_genprop("C04", ["C04."], lambda v: v["renamed"] > 0,
                          GEN_RULE + "every case also runs ensure_unique_type_paths twice and generation on the result; non-trivial = at least one path renamed",
                          tier, seed)
+
+
+def simple_multi_run_check(prop, mc_module, mc_cfg, tv_module, quick_n, rule, tier, seed, extra_run=None, mode="gen"):
+    """MC module emits CASE lines with {reg, settings: [..]}; each settings record is one run of the case."""
+    res = Result(prop, tier, seed)
+    wd = workdir(prop)
+    out = tlc_run(os.path.join(SPEC, "mc", mc_module), os.path.join(SPEC, "mc", mc_cfg), os.path.join(wd, "mc.out"),
+                  os.path.join(wd, "md"), workers=8, timeout=3000, xmx="12g")
+    res.add_mc(tlc_summary(out))
+    cases = tlc_lines(out, "CASE ")
+    n_all = len(cases)
+    rnd = random.Random(seed)
+    if tier == "quick" and quick_n and len(cases) > quick_n:
+        rnd.shuffle(cases)
+        cases = cases[:quick_n]
+    recs = []
+    for i, c in enumerate(cases):
+        runs = [dict({"reg": c["reg"], "settings": s, "dedup": False, "composites": False, "teq": [], "repeat": 0}, **(extra_run or {})) for s in c["settings"]]
+        r = {k: v for k, v in c.items() if k not in ("reg", "settings")}
+        r.update({"case": i, "runs": runs})
+        recs.append(r)
+    write_ndjson(os.path.join(wd, "cases.ndjson"), recs)
+    harness_run(mode, os.path.join(wd, "cases.ndjson"), os.path.join(wd, "obs.ndjson"), jobs=12)
+    obs = read_ndjson(os.path.join(wd, "obs.ndjson"))
+    for o in obs:
+        if o.get("crash"):
+            res.violations.append((f"{prop}: harness worker {o['crash']} (abort / non-termination in the code under test)", recs[o["i"]]))
+    if res.violations:
+        return res, recs, []
+    bad_setup = [o for o in obs if any(r.get("setup") != "ok" for r in o["runs"])]
+    if bad_setup:
+        raise ToolError(f"harness could not set up case {bad_setup[0]['case']}")
+    verdicts, summ = tv_parallel(os.path.join(SPEC, "tv", tv_module), os.path.join(SPEC, "tv", tv_module.replace(".tla", ".cfg")),
+                                 os.path.join(wd, "obs.ndjson"), wd, nproc=8, workers=2)
+    res.add_mc(summ)
+    if len(verdicts) != len(recs):
+        raise ToolError(f"TV judged {len(verdicts)} of {len(recs)} cases")
+    account(res, prop, verdicts_with_fam(verdicts), lambda cid: recs[cid], [prop + "."], load_findings())
+    res.traces = sum(len(r["runs"]) for r in recs)
+    res.evaluations = len(recs)
+    res.nontrivial = sum(1 for v in verdicts if v.get("nontrivial", True))
+    res.extra["cases_model_checked"] = n_all
+    res.rule = rule
+    res.samples = [{"registry": r["runs"][0]["reg"][:2], "settings": [x["settings"]["root"] for x in r["runs"]]} for r in recs[:: max(1, len(recs) // 3)][:3]]
+    res.assumptions = ["TLC and CommunityModules", "harness projection (syn)", "ScaleInfo.tla (E0)"]
+    return res, recs, verdicts
+
+
+def verdicts_with_fam(vs):
+    for v in vs:
+        v.setdefault("fam", "")
+        v.setdefault("known", [])
+    return vs
+
+
+def check_c09(tier, seed):
+    res, recs, verdicts = simple_multi_run_check(
+        "C09", "MC_C09.tla", "MC_C09.cfg", "TV_C09.tla", 700,
+        "MC: 41 registries covering every heap-allocated prelude type (Vec, String, Box, BTreeMap, BTreeSet, BinaryHeap, VecDeque, Cow, nested, under a generic parameter), compact, "
+        "bit sequences and documented types x all 2^6 combinations of the switches (alloc path, docs, codec attributes, root name, Compact path, DecodedBits path): the model output obeys "
+        "the per-switch rules and equals the output under each single flipped switch after erasing that switch's tokens (Switches.tla); TV: a seeded sample (quick) or all (thorough) of the "
+        "(registry, combination) cases is generated by the real crate under the base settings and the six one-switch flips and TLC evaluates the same rules and erasure equalities on the "
+        "projected modules; non-trivial = the base module has at least one field; distinct by (registry, combination)", tier, seed)
+    return res.finish()
 
 
 def check_c10(tier, seed):
@@ -712,7 +799,7 @@ def check_e0_cmd(tier, seed):
     return 0
 
 
-CHECKS = {"C15": check_c15, "E0": check_e0_cmd, "C01": check_c01, "C02": check_c02, "C03": check_c03, "C04": check_c04, "C10": check_c10, "C05": check_c05, "C17": check_c17, "C18": check_c18}
+CHECKS = {"C15": check_c15, "E0": check_e0_cmd, "C01": check_c01, "C02": check_c02, "C03": check_c03, "C04": check_c04, "C10": check_c10, "C05": check_c05, "C17": check_c17, "C18": check_c18, "C07": check_c07, "C08": check_c08, "C09": check_c09}
 
 
 def selfcheck():
